@@ -911,7 +911,8 @@ Plan gen_vm_plan(const std::string &prop, Rng &rng, long long sub, const std::st
   lay.style = rng.chance(2, 5) ? 0 : (rng.chance(2, 3) ? 1 : 2);
   lay.nfiles = rng.chance(1, 2) ? 1 : (int)rng.range(2, thorough ? 5 : 3);
   lay.spelling = (int)rng.below(4);
-  lay.naming = (lay.seed >> 9) % 4 == 0 ? 1 : 0;   // a quarter of the projects: file names that are prefixes of one another
+  lay.naming = (lay.seed >> 9) % 4 == 0 ? 1 : 0;
+  lay.cut_defs = (lay.seed >> 27) % 2 == 0 ? 1 : 0;   // a quarter of the projects: file names that are prefixes of one another
   int max_ops = thorough ? 200 : 60;
   int nops = rng.chance(1, 3) ? (int)rng.range(1, 5) : (int)rng.range(1, max_ops);
   bool allow_reset = true, heavy = false;
